@@ -512,6 +512,7 @@ impl CodegenContext {
                 );
                 self.source_map.add(
                     self.current_scope_nx,
+                    name,
                     span,
                     segment.target_pc(),
                     bytes.len(),
